@@ -94,6 +94,7 @@ type Call struct {
 	returned int32
 	doneCh   chan struct{} // closed when the call returned / completed
 	issued   chan struct{} // closed when the stub returned (async kinds: future available)
+	started  chan struct{} // closed when Issue begins (the stub is about to be invoked)
 
 	retAt time.Time
 	// results
@@ -309,7 +310,7 @@ func (c *Client) NewCall(idx int, token uint64, seq uint64, spec CallSpec) *Call
 		req.Payload = PayloadFor(99, token, spec.Payload)
 	}
 	call := &Call{Idx: idx, Spec: spec, Token: token, Req: req, ReqCp: proto.Clone(req).(*puppet.Req), cl: c,
-		doneCh: make(chan struct{}), issued: make(chan struct{})}
+		doneCh: make(chan struct{}), issued: make(chan struct{}), started: make(chan struct{})}
 	switch spec.Ctx {
 	case "", "background":
 		call.ctx, call.cancel = context.Background(), func() {}
@@ -353,6 +354,9 @@ func (call *Call) Ctx() context.Context { return call.ctx }
 
 // DoneCh is closed when the call returned (sync, one-way) or completed (future, correctable).
 func (call *Call) DoneCh() <-chan struct{} { return call.doneCh }
+
+// StartedCh is closed when the call's stub is about to be invoked.
+func (call *Call) StartedCh() <-chan struct{} { return call.started }
 
 // IssuedCh is closed when the stub has returned.
 func (call *Call) IssuedCh() <-chan struct{} { return call.issued }
@@ -486,6 +490,11 @@ func (call *Call) Issue() {
 	spec := call.Spec
 	ctx := call.ctx
 	c.Cl.Log.Add(Event{Kind: "issue", Call: call.Idx, Token: call.Token, Server: -1, Method: spec.Kind, Seq: call.Req.GetSeq()})
+	select {
+	case <-call.started:
+	default:
+		close(call.started)
+	}
 	var opts []gorums.CallOption
 	if spec.NoSendWait {
 		opts = append(opts, gorums.WithNoSendWaiting())
